@@ -419,7 +419,7 @@ func (c *Ctx) stateFuncs() map[string]*ast.FuncDecl {
 		}
 		sig := f.Type().(*types.Signature)
 		if sig.Recv() == nil && types.Identical(sig, st.Underlying()) {
-			out[f.Name()] = fd
+			out[funcName(f)] = fd
 		}
 	}
 	return out
@@ -488,7 +488,7 @@ func ruleLayoutSilent(c *Ctx, r *Report, rule string, spec *langSpec) {
 			}
 			target := ""
 			if id, ok := rs.Results[0].(*ast.Ident); ok {
-				target = id.Name
+				target = c.identFn(id)
 			}
 			switch x := stripParens(a.Exprs[0]).(type) {
 			case *ast.CallExpr:
@@ -511,7 +511,7 @@ func ruleLayoutSilent(c *Ctx, r *Report, rule string, spec *langSpec) {
 		okRun, okIgnore := false, false
 		for _, cs := range calls {
 			if cs.Name == "lexer.acceptRunFunc" && len(cs.Call.Args) == 1 {
-				if id, ok := cs.Call.Args[0].(*ast.Ident); ok && id.Name == "isSpace" {
+				if id, ok := cs.Call.Args[0].(*ast.Ident); ok && c.identFn(id) == "isSpace" {
 					okRun = true
 				}
 			}
@@ -533,6 +533,14 @@ func ruleLayoutSilent(c *Ctx, r *Report, rule string, spec *langSpec) {
 	}
 }
 
+// identFn renders an identifier that denotes a module function by that function's canonical name.
+func (c *Ctx) identFn(id *ast.Ident) string {
+	if f, ok := c.objOf(id).(*types.Func); ok {
+		return funcName(f)
+	}
+	return id.Name
+}
+
 func returnsOnly(fd *ast.FuncDecl, name string) bool {
 	ok, n := true, 0
 	ast.Inspect(fd.Body, func(x ast.Node) bool {
@@ -542,7 +550,7 @@ func returnsOnly(fd *ast.FuncDecl, name string) bool {
 				ok = false
 				return true
 			}
-			if id, isID := rs.Results[0].(*ast.Ident); !isID || id.Name != name {
+			if id, isID := rs.Results[0].(*ast.Ident); !isID || curCtx.identFn(id) != name {
 				ok = false
 			}
 		}
@@ -651,7 +659,7 @@ func (c *Ctx) commentLoopShape(fd *ast.FuncDecl) (bool, string) {
 		case *ast.ReturnStmt:
 			if len(s.Results) == 1 {
 				if id, ok := s.Results[0].(*ast.Ident); ok {
-					seq = append(seq, "return "+id.Name)
+					seq = append(seq, "return "+c.identFn(id))
 				}
 			}
 		}
@@ -681,7 +689,7 @@ func ruleStringOpaque(c *Ctx, r *Report, rule string) {
 						if k, isC := c.intConst(be.Y); isC && k == '"' {
 							if rs, ok := a.Body[0].(*ast.ReturnStmt); ok && len(rs.Results) == 1 {
 								if id, ok := rs.Results[0].(*ast.Ident); ok {
-									quoteFn = id.Name
+									quoteFn = c.identFn(id)
 								}
 							}
 						}
